@@ -195,6 +195,9 @@ class Ctx:
             except subprocess.TimeoutExpired:
                 out = "tlapm timed out after %ds" % timeout
                 continue
+            except FileNotFoundError:
+                out = "tlapm is not installed"
+                break
             m = re.search(r"All (\d+) obligations? proved", out)
             if r.returncode == 0 and m:
                 n = int(m.group(1))
